@@ -197,7 +197,7 @@ func c01MakeSrc(r *core.Rand, v2019, frag bool, phoneVar int) ([]byte, ref.Param
 	// the 2019 header's protocol-version-number byte: every class of value a terminal may put there (the reply always says 1)
 	vb := core.Pick(r, []byte{1, 1, 0, 2, 0x7d, 0x7e, 0xff, r.Byte()})
 	q := ref.Params{ID: r.U16(), V2019: v2019, VersionByt: vb, Encrypt: r.Bool(), Fragmented: frag, BCD: c01Phone(r, n, phoneVar),
-		Serial: core.Pick(r, append(c01Serials, r.U16(), r.U16())), Body: r.Bytes(r.Intn(24))}
+		Serial: core.Pick(r, append(c01Serials, r.U16(), r.U16())), Body: r.Bytes(core.Pick(r, []int{r.Intn(24), r.Intn(24), r.Intn(24), 255, 256, 511, 512, 513, 600 + r.Intn(400), 1000, 1022, 1023}))}
 	if r.Chance(1, 6) {
 		q.ID = core.Pick(r, []uint16{0x7e7e, 0x7d7d, 0x0200, 0x0002, 0x7d01})
 	}
